@@ -15,6 +15,11 @@ D1 every store of the ingest functions (normal form, helpers inlined) is a commu
 D2 verdict fields are order-free functions of merged state; finalisation writes to aggregator state - directly or
    through an aliasing local - only idempotent min/max fall-backs; a None-until-ingested field is never ordered
    without a None guard (finalisation is total on every subset of records),
+D2+ no call evaluated while finalising reaches a store into aggregator state other than such a fall-back: methods of the
+   aggregate classes (found by name among the classes of the aggregation package - a get-or-create accessor used for a
+   read inserts an entry), methods of the aggregator, package functions that receive state; the callee is followed
+   into its module with the parameters bound to state as roots.  On the ingest side the same accessors are inlined
+   into the handler's normal form, so their stores are classified / CFG-checked like the handler's own,
 D3 verdict decision trees (if statements / conditional expressions, roles found by pattern, tests outside the table
    treated as free booleans), roll-up counter zeroed per call, set-difference directions; the verdict classes are plain
    records and no finaliser rewrites a built verdict (the table is decided on the constructor arguments).
@@ -1412,6 +1417,240 @@ def check_verdict_not_rewritten(R: Report, rule: str, fn: ast.FunctionDef, qual:
 
 
 # ---------------------------------------------------------------------------------------------------------
+# methods of the aggregate classes (accessors such as a get-or-create `RunAggregate.node(node_id)`): on the ingest
+# side they are part of the merge (inlined into the handler's normal form, so that every D1 rule sees their stores);
+# on the finalisation side a call that reaches a store into aggregator state is a write of the finaliser (D2)
+# ---------------------------------------------------------------------------------------------------------
+
+_CONTAINER_METHOD_NAMES = set(dir(dict)) | set(dir(set)) | set(dir(list)) | set(dir(tuple)) | set(dir(str))
+
+
+def model_methods(repo: Repo) -> Dict[str, List[Tuple[object, ast.ClassDef, ast.AST]]]:
+    """name -> (module, class, def) of the methods of every class of the aggregation package except the aggregator
+    itself.  The receiver of `X.m(..)` is not typed, so the method is found by its name among these classes (names of
+    the builtin containers' methods never count: `self._runs.get(..)` is the dict's `get`)."""
+    cache = repo.__dict__.setdefault("_c13_model_methods", None)
+    if cache is not None:
+        return cache
+    pkg = AGG.rsplit("/", 1)[0] + "/"
+    out: Dict[str, List[Tuple[object, ast.ClassDef, ast.AST]]] = {}
+    for rel in sorted(repo.modules):
+        if not rel.startswith(pkg):
+            continue
+        mod = repo.modules[rel]
+        for c in mod.tree.body:
+            if not isinstance(c, ast.ClassDef) or (rel == AGG and c.name == CLS):
+                continue
+            for m in c.body:
+                if isinstance(m, FuncNode) and not m.name.startswith("__") and m.name not in _CONTAINER_METHOD_NAMES:
+                    decos = {(dotted_name(d) or "").split(".")[-1] for d in m.decorator_list}
+                    if decos & {"staticmethod", "classmethod", "property", "cached_property", "setter"} or not m.args.args:
+                        continue
+                    out.setdefault(m.name, []).append((mod, c, m))
+    repo.__dict__["_c13_model_methods"] = out
+    return out
+
+
+def _split_chained_stores(fn: ast.AST) -> None:
+    """``a = c[k] = V`` (targets are bound left to right to the one value) becomes ``a = V; c[k] = a``."""
+    from ..normal import _blocks
+
+    for block in list(_blocks(fn)):
+        i = 0
+        while i < len(block):
+            st = block[i]
+            if isinstance(st, ast.Assign) and len(st.targets) > 1 and isinstance(st.targets[0], ast.Name) and all(isinstance(t, (ast.Subscript, ast.Attribute)) for t in st.targets[1:]):
+                first = ast.copy_location(ast.Assign(targets=[st.targets[0]], value=st.value), st)
+                rest = [ast.copy_location(ast.Assign(targets=[t], value=ast.copy_location(ast.Name(id=st.targets[0].id, ctx=ast.Load()), st)), st) for t in st.targets[1:]]
+                block[i:i + 1] = [first] + rest
+                i += 1 + len(rest)
+            else:
+                i += 1
+    ast.fix_missing_locations(fn)
+
+
+def inline_model_methods(repo: Repo, mod, fn: ast.AST, owner: Optional[ast.AST], keep: Tuple[str, ...] = ()) -> List[str]:
+    """Inline, in place, the calls `X.m(..)` of *fn* whose callee is the one method called `m` of the aggregate classes
+    (receiver a plain dotted name other than the aggregator itself), and the calls `f(..)` of a module-level function
+    that lives in another module of the aggregation package (an accessor kept next to the classes and imported).  The
+    statements keep the line of the call (they are reported as part of *fn*).  Returns the qualified names of what was
+    inlined and consults the defining files."""
+    from ..normal import _Inliner
+    from ..engine import _attach_parents
+
+    table = model_methods(repo)
+    pkg = AGG.rsplit("/", 1)[0] + "/"
+    done: List[str] = []
+    home: Dict[int, Tuple[str, str]] = {}
+
+    def eligible(h: ast.AST, call: ast.Call, limit: int) -> bool:
+        if not isinstance(h, ast.FunctionDef) or h.args.vararg or h.args.kwarg:
+            return False
+        if any(isinstance(a, ast.Starred) for a in call.args) or any(k.arg is None for k in call.keywords):
+            return False
+        n_stmts = 0
+        for x in ast.walk(h):
+            if isinstance(x, (ast.Yield, ast.YieldFrom, ast.Await, ast.Global, ast.Nonlocal, ast.ClassDef)) or (isinstance(x, FuncNode) and x is not h):
+                return False
+            if isinstance(x, ast.Call) and (dotted_name(x.func) or "").split(".")[-1] == h.name:
+                return False
+            if isinstance(x, ast.stmt):
+                n_stmts += 1
+        return n_stmts <= limit
+
+    class _ModelInliner(_Inliner):
+        def helper_of(self, call: ast.Call):
+            f = call.func
+            if isinstance(f, ast.Name):
+                if f.id in self.keep:
+                    return None
+                try:
+                    targets = repo.resolve_call(self.mod, call)
+                except Exception:
+                    return None
+                if len(targets) != 1:
+                    return None
+                hm, h = targets[0]
+                if hm is self.mod or not hm.rel.startswith(pkg) or not isinstance(parent(h), ast.Module) or getattr(h, "decorator_list", None):
+                    return None
+                if getattr(h, "name", None) != f.id and not isinstance(h, ast.FunctionDef):
+                    return None
+                if not eligible(h, call, self.max_stmts):
+                    return None
+                home[id(h)] = (hm.rel, h.name)
+                return h, None
+            if not isinstance(f, ast.Attribute) or dotted_name(f.value) is None:
+                return None
+            if isinstance(f.value, ast.Name) and f.value.id in ("self", "cls"):
+                return None
+            cands = table.get(f.attr, [])
+            if len(cands) != 1 or f.attr in self.keep:
+                return None
+            m_, c_, h = cands[0]
+            if not eligible(h, call, self.max_stmts):
+                return None
+            home[id(h)] = (m_.rel, f"{c_.name}.{h.name}")
+            return h, f.value
+
+        def expand(self, h, recv, call, context, caller_names):
+            out = super().expand(h, recv, call, context, caller_names)
+            if out is not None:
+                rel, label = home[id(h)]
+                repo.consulted.add(rel)
+                done.append(label)
+                for s in out:
+                    for x in ast.walk(s):
+                        if hasattr(x, "lineno"):
+                            x.lineno = getattr(context, "lineno", x.lineno)
+                            x.end_lineno = getattr(context, "end_lineno", x.lineno)
+            return out
+
+    keep_parent = getattr(fn, "_parent", None)
+    _ModelInliner(repo, mod, fn, keep).run(fn)
+    if done:
+        _split_chained_stores(fn)
+        _attach_parents(fn)
+        fn._parent = keep_parent if keep_parent is not None else owner  # type: ignore[attr-defined]
+    return done
+
+
+def call_effects(repo: Repo, mod, fn: ast.AST, state: Set[str], seen: set, depth: int = 0, fresh_methods: Set[str] = frozenset(), skip_defs: Set[int] = frozenset()) -> List[Tuple[ast.Call, str, str, ast.AST, int]]:
+    """Calls of *fn* (a normal form) through which state reachable from the names in *state* is written in a way that
+    is not an idempotent min/max merge: (call, file of the store, qualified name of the function holding it, the
+    storing statement, its line).  The callee is resolved by the engine (functions, methods of the aggregator) or, for
+    a method called on a state object, by name among the aggregate classes; its parameters bound to state are the
+    roots there, and calls it makes are followed the same way."""
+    from ..engine import qualname_of
+    from ..normal import normalize
+
+    out: List[Tuple[ast.Call, str, str, ast.AST, int]] = []
+    if depth > 4:
+        return out
+    pkg = AGG.rsplit("/", 1)[0] + "/"
+    table = model_methods(repo)
+    for c in [x for x in walk_no_nested(fn) if isinstance(x, ast.Call)]:
+        f = c.func
+        targets: List[Tuple[object, ast.AST, Optional[ast.AST]]] = []  # (module, def, receiver bound to the first parameter)
+        if isinstance(f, ast.Attribute) and f.attr in STORE_METHODS and f.attr not in table:
+            continue  # a container's own mutator: a store site of fn itself
+        try:
+            resolved = [(m, t) for m, t in repo.resolve_call(mod, c) if isinstance(t, FuncNode) and m.rel.startswith(pkg)]
+        except Exception:
+            resolved = []
+        for m, t in resolved:
+            is_meth = _is_method(t) and isinstance(f, ast.Attribute)
+            targets.append((m, t, f.value if is_meth else None))
+        if not resolved and isinstance(f, ast.Attribute) and _root_name(f.value) in state and not (isinstance(f.value, ast.Name) and f.value.id == "self"):
+            for m, _cls, t in table.get(f.attr, []):
+                targets.append((m, t, f.value))
+        for m, t, recv in targets:
+            if getattr(t, "name", "") == "__init__":
+                continue  # a constructor builds a new object
+            if id(t) in skip_defs:
+                continue  # a finaliser called by a finaliser: decided on its own
+            pos = list(t.args.posonlyargs + t.args.args)
+            roots: Set[str] = set()
+            if recv is not None and pos:
+                if _root_name(recv) in state:
+                    roots.add(pos[0].arg)
+                pos = pos[1:]
+            elif _is_method(t) and pos:
+                pos = pos[1:]
+            for p, a in zip(pos, c.args):
+                if _root_name(a) in state and not isinstance(a, ast.Constant):
+                    roots.add(p.arg)
+            names = {p.arg for p in pos} | {p.arg for p in t.args.kwonlyargs}
+            for k in c.keywords:
+                if k.arg in names and _root_name(k.value) in state:
+                    roots.add(k.arg)
+            if not roots:
+                continue
+            key = (id(t), tuple(sorted(roots)))
+            if key in seen:
+                continue
+            seen.add(key)
+            repo.consulted.add(m.rel)
+            body = normalize(repo, m, t)
+            aliases = _state_aliases(body, roots, fresh_methods if "self" in roots and m.rel == AGG else frozenset())
+            for st, obj in _store_sites(body):
+                if _root_name(obj) not in aliases:
+                    continue
+                stmt = st if isinstance(st, ast.stmt) else stmt_of(st)
+                kind = "store"
+                if isinstance(st, (ast.Assign, ast.AugAssign, ast.AnnAssign)) and isinstance(obj, ast.Attribute):
+                    kind, _detail = classify_store(body, st, obj, "___", lambda _c: set(), {})
+                if kind != "minmax":
+                    out.append((c, m.rel, qualname_of(t), stmt, getattr(stmt, "lineno", 0)))
+            for _c2, rel2, q2, stmt2, line2 in call_effects(repo, m, body, aliases, seen, depth + 1, fresh_methods, skip_defs):
+                out.append((c, rel2, q2, stmt2, line2))
+    return out
+
+
+def check_calls_leave_state(R: Report, rule: str, repo: Repo, mod, fn: ast.AST, qual: str, fresh_methods: Set[str], skip_defs: Set[int] = frozenset()) -> None:
+    """No call made while finalising reaches a store into aggregator state other than an idempotent min/max merge."""
+    state = _state_aliases(fn, {"self"}, fresh_methods)
+    effects = call_effects(repo, mod, fn, state, set(), 0, fresh_methods, skip_defs)
+    bad_calls: Set[int] = set()
+    reported: Set[Tuple[str, str]] = set()
+    for c, rel, q, stmt, line in effects:
+        bad_calls.add(id(c))
+        host = stmt_of(c)
+        key = (norm(host), norm(stmt))
+        if key in reported:
+            continue
+        reported.add(key)
+        R.violation(rule, AGG, qual, norm(host), f"`{norm(c, 60)}` is evaluated while finalising and runs `{norm(stmt, 80)}` ({rel}:{line}, in {q}): the call writes into aggregator state - what looks like a read inserts / changes an entry (e.g. a get-or-create accessor creates an empty aggregate for a key that never had a record), so the next finalisation sees other observed nodes / fields than this one did: finalising twice does not give the same verdict, and the verdict no longer depends on the ingested records alone", getattr(host, "lineno", 0))
+    for c in [x for x in walk_no_nested(fn) if isinstance(x, ast.Call)]:
+        if id(c) in bad_calls:
+            continue
+        f = c.func
+        own = isinstance(f, ast.Attribute) and isinstance(f.value, ast.Name) and f.value.id == "self" and any(isinstance(t, FuncNode) for _m, t in repo.resolve_call(mod, c))
+        model = isinstance(f, ast.Attribute) and f.attr in model_methods(repo) and _root_name(f.value) in state and not (isinstance(f.value, ast.Name) and f.value.id == "self")
+        if own or model:
+            R.ok(rule, AGG, qual, norm(c, 80), "leaves aggregator state unchanged (up to idempotent min/max fall-backs)", getattr(c, "lineno", 0))
+
+
+# ---------------------------------------------------------------------------------------------------------
 # roles: which function ends up merging which record type (found from the public entry point `ingest`)
 # ---------------------------------------------------------------------------------------------------------
 
@@ -2448,9 +2687,17 @@ def _run(repo: Repo, R: Report) -> None:
     r_reg = R.rule("C13-D1-registered-aggregates", "an aggregate object that an _ingest_* method merges into is taken from a container of the aggregator or, when constructed on the spot, is stored into one on every path before the merge takes effect (otherwise the first record seen for a key is lost and the verdict depends on the ingest order)", 5)
     r_keep = R.rule("C13-D1-entries-created-never-replaced", "a store `container[key] = aggregate` in an _ingest_* method is reached only when the lookup of that key found nothing (or writes back what the lookup gave), and no ingest step removes an entry or an element: an aggregate that already received merges is never replaced by a new one, whatever its state (CFG: every path to the store passes an edge that guarantees absence)", 6)
     r_hist = R.rule("C13-D1-merges-independent-of-history", "the unconditional merges of the ingest path (dispatch of a record to its _ingest_* method, flag := True, set add, counter) are not skipped by a test that reads state left behind by earlier records (aggregator attributes, module / class level cells, mutable defaults), except an idempotence guard; no function of the aggregation package reads process-lifetime state: what a record contributes does not depend on what was ingested before it", 14)
+    r_calls = R.rule("C13-D2-finalisation-calls-leave-state-unchanged", "no call evaluated while finalising (a method of an aggregate object such as a get-or-create accessor, a method of the aggregator, a function of the aggregation package that receives aggregator state) reaches a store into aggregator state other than an idempotent min/max fall-back: a read that inserts or changes an entry makes the second finalisation see other state than the first (finalising twice changes the verdict) - the callee is followed into its defining module, the parameters bound to state are the roots there", 3)
     from ..engine import qualname_of
     from ..normal import normalize
     D = read_dispatch(repo, cls)
+    # decided before the ingest functions are read: a finaliser that writes through a call is a located violation even
+    # when the same accessor makes an ingest function unreadable
+    finalisers = [m for m in cls.body if isinstance(m, FuncNode) and ((m.name in fresh_methods and m.returns is not None and "Completeness" in ast.unparse(m.returns)) or m.name in ("finalize_run", "finalize_launch", "finalize_all"))]
+    if not finalisers:
+        raise AnalysisError(f"{CLS}: no method declared to return a completeness verdict")
+    for m in finalisers:
+        check_calls_leave_state(R, r_calls, repo, repo.module(AGG), nfunc(repo, AGG, f"{CLS}.{m.name}"), f"{CLS}.{m.name}", fresh_methods, {id(x) for x in finalisers})
     # every record type reaches a function that merges it (decided on the CFG of the dispatcher's normal form with the
     # tests on the record type evaluated for that type: if/elif chain, match, early returns, lookup table)
     ing = repo.func(AGG, f"{CLS}.ingest")
@@ -2480,6 +2727,10 @@ def _run(repo: Repo, R: Report) -> None:
         qual = qualname_of(handler)
         inst, rec = instantiate(repo, cls, hmod, handler, hcall, D.rec)
         fn = normalize(repo, hmod, inst)
+        # accessors of the aggregate classes (`run.node(node_id)`) are part of the merge: their stores are stores of the handler
+        if inline_model_methods(repo, hmod, fn, cls):
+            fn = normalize(repo, hmod, fn, inline=False)
+            fn._parent = cls  # type: ignore[attr-defined]
         merge_sites: List[Tuple[ast.stmt, str, Optional[ast.AST]]] = []
         state = _state_aliases(fn, {"self"}, fresh_methods)
         # locals that hold (a function of) record fields
@@ -2611,6 +2862,16 @@ def _run(repo: Repo, R: Report) -> None:
     fr = nfunc(repo, AGG, f"{CLS}.finalize_run", keep=(exp_helper,))
     fl = nfunc(repo, AGG, f"{CLS}.finalize_launch", keep=(exp_helper,))
     fa = nfunc(repo, AGG, f"{CLS}.finalize_all", keep=(exp_helper,))
+    # read-only accessors of the aggregate classes (`run.observed()`) are looked through like private helpers
+    def _with_model_methods(f0: ast.FunctionDef) -> ast.FunctionDef:
+        f1 = normalize(repo, agg_mod, f0, inline=False)
+        if not inline_model_methods(repo, agg_mod, f1, cls, keep=(exp_helper,)):
+            return f0
+        f1 = normalize(repo, agg_mod, f1, inline=False)
+        f1._parent = cls  # type: ignore[attr-defined]
+        return f1
+
+    fr, fl, fa = _with_model_methods(fr), _with_model_methods(fl), _with_model_methods(fa)
     ctor, ctor_stmt = _final_ctor(fr, "RunCompleteness")
     lctor, lctor_stmt = _final_ctor(fl, "LaunchCompleteness")
     for kw in ("missing_nodes", "orphan_nodes", "nonterminal_nodes"):
